@@ -30,6 +30,11 @@ def install_fault(fault):
     def wrapper(*args, **kwargs):
         hit = kwargs.get('r0') == fault.get('r0', 0)
         if hit and fault.get('point', 'before') == 'before':
+            if fault.get('fail_delay'):
+                # fail only once the siblings have done their work (they are
+                # then held at their save by 'save_delay')
+                import time
+                time.sleep(float(fault['fail_delay']))
             fire(fault)
         if not hit and fault.get('sibling_delay'):
             # a slow sibling: still at work when the failure is noticed
